@@ -119,6 +119,17 @@ func ptrTo(base any) any {
 	return p.Interface()
 }
 
+// realIDs: the token "e" stands for the empty id
+func realIDs(toks []string) []string {
+	out := make([]string, len(toks))
+	for i, t := range toks {
+		if t != "e" {
+			out[i] = t
+		}
+	}
+	return out
+}
+
 // leafValues returns the field, the value to store and the filter value.
 func leafValues(lf fLeaf) (field string, rval, cval any) {
 	switch lf.Cls {
@@ -126,11 +137,11 @@ func leafValues(lf fLeaf) (field string, rval, cval any) {
 		field = "o"
 		id := ""
 		if len(lf.RV.IDs) > 0 {
-			id = lf.RV.IDs[0]
+			id = realIDs(lf.RV.IDs)[0]
 		}
 		rval = id
 		if lf.Op == "in" {
-			cval = append([]string{}, lf.CV.IDs...)
+			cval = realIDs(lf.CV.IDs)
 		} else {
 			c := ""
 			if len(lf.CV.IDs) > 0 {
@@ -145,6 +156,13 @@ func leafValues(lf fLeaf) (field string, rval, cval any) {
 			cval = lf.CV.IDs[0]
 		} else {
 			cval = append([]string{}, lf.CV.IDs...)
+		}
+		// the empty list has two spellings in Go: the same empty set of ids
+		if lf.Table%3 == 1 && len(lf.RV.IDs) == 0 {
+			rval = nil // never assigned: a wrapped struct then holds a nil slice
+		}
+		if lf.Table%3 == 2 && lf.Op != "has" && len(lf.CV.IDs) == 0 {
+			cval = []string(nil)
 		}
 	default:
 		field = "v"
@@ -365,8 +383,12 @@ func filterMain(args []string) {
 		if lc.Cls == "num" || lc.Cls == "seq" || lc.Cls == "bool" {
 			kinds = kindsOfClass(lc.Cls)
 		}
+		nt := *tables
+		if (lc.Cls == "to1" || lc.Cls == "toN") && nt < 3 {
+			nt = 3 // the three spellings of the empty list
+		}
 		for _, k := range kinds {
-			for t := 0; t < *tables; t++ {
+			for t := 0; t < nt; t++ {
 				lf := fLeaf{Cls: lc.Cls, Kind: k, Null: lc.Null, Op: lc.Op, RV: lc.RV.norm(), CV: lc.CV.norm(), Table: t + int(*seed)}
 				for _, impl := range []string{"soft", "wrap"} {
 					emit(fCase{Fam: "filter", Kind: "leaf", Impl: impl, Leaf: lf})
